@@ -325,6 +325,9 @@ def rand_uplink(rng, sess):
     d = [bval(rng) for _ in range(rng.choice([1, 2, 3, 5, 9]))]
     if ty in StateTypes: return rand_uplink(rng, sess)
     if ty == 0x86: d = [rng.choice([0, 1, 2, 3, 4, 5, 6, 0x10, 0x20, 0x30]), rng.choice([0, 1, 2, 3, 4, 5, 6])] + d[:1]   # SYS_ERROR with in-range codes
+    if ty == 0x89: d = [bval(rng) for _ in range(9)]          # well-formed lengths of the start-up dialogue types
+    if ty == 0x88: d = d[:1]
+    if ty == 0x90 and len(d) < 2: d = d + [bval(rng)]
     return node_of(anyb) if anyb else [9], ty, d
 
 StateTypes = {0xa0, 0xa1, 0xa2, 0xa3, 0xa9, 0xa7, 0xa6, 0xaa, 0xb0, 0xb2, 0xe1, 0xe2, 0xe3, 0xe5, 0xe7, 0xc0, 0xc4, 0xb8, 0xba, 0x93, 0x8d, 0x8c, 0xac, 0xe6}
@@ -388,6 +391,6 @@ def typed_uplink(rng, sess, ty, variant=0):
          0xb0: [0x80 if variant == 0 else 0x01], 0xb2: [0, 10, 1, 120], 0xe1: [3], 0xe2: [35, 1, 1], 0xe3: [34, 17, 1], 0xe5: [35, 1, 2, 3, 130, 1, 0, 0, 0],
          0xe7: [34, 17, 33], 0xc0: [35, 1, 1], 0xc4: [35, 1, 5], 0xb8: [2, 1, 2, 0 if variant == 0 else 0x80, 0], 0xba: [2, 0, 2, 0 if variant == 0 else 0x80, 3],
          0x93: [2, 51, 48, 1, 51], 0x8d: [1, 5, 1, 2, 3, 4, 5, 6, 7], 0x8c: [1, 5, 1, 2, 3, 4, 5, 6, 7], 0xac: [35, 1, 0, 1, 2],
-         0xe6: [variant, 0, 0, 0], 0x86: [1 + variant, 0, 0]}.get(ty)
+         0xe6: [variant, 0, 0, 0], 0x86: [1 + variant, 0, 0], 0x89: [1, 0, 1, 2, 3, 4, 5, 6, 7], 0x88: [1], 0x90: [1, 2], 0x8e: [0]}.get(ty)
     if d is None: d = [bval(rng) for _ in range(rng.choice([1, 2, 4, 9]))]
     return n, ty, d
